@@ -887,8 +887,16 @@ class Interp:
                 raise Unsupported(f"adaptor {ad[0]}")
         return elem
 
-    def for_loop(self, fl, env, loc):
+    def for_loop(self, fl, env, loc, try_body=False):
         pat, it, body, _ = fl
+        if try_body:
+            plain_eval = self.eval
+
+            def eval_body(b, e):
+                v = plain_eval(b, e)
+                return self.try_(v, loc)
+        else:
+            eval_body = self.eval
         s = self.to_stream(self.eval(it, env))
         dom = s[1]
         if s[2][0] == "oneof" and not s[3]:
@@ -896,7 +904,7 @@ class Interp:
             for el in s[2][1]:
                 self.bind(pat, el, env)
                 try:
-                    self.eval(body, env)
+                    eval_body(body, env)
                 except Exit as e:
                     if e.kind == "continue":
                         continue
@@ -911,7 +919,7 @@ class Interp:
             elem = self.stream_elem(s)
             self.bind(pat, elem, env)
             try:
-                self.eval(body, env)
+                eval_body(body, env)
             except Exit as e:
                 if e.kind == "continue":
                     return
@@ -958,6 +966,13 @@ class Interp:
 
     def e_MethodCall(self, n, env):
         path = n.get("inst") or n.get("def")
+        if n.get("m") in ("for_each", "try_for_each"):
+            # `xs.iter().for_each(|x| body)` / `.try_for_each(|x| body)` is the loop `for x in xs.iter() { body }` /
+            # `{ body? }` (the Err a `try_for_each` hands back is what `?` would have returned)
+            fl = core.as_for(n)
+            if fl is not None and not any(rx.search(path or "") for rx, _h in self.prims):
+                self.for_loop(fl, env, core.loc(n), try_body=(n["m"] == "try_for_each"))
+                return var(OK, UNIT) if n["m"] == "try_for_each" else UNIT
         return self.call(n, path, n.get("def"), [n["recv"]] + n["args"], env)
 
     def call(self, n, path, generic, arg_nodes, env):
